@@ -64,7 +64,7 @@ claimed = {
    text="Every literal alternative and boundary literal (~150) in nine syntactic positions, and all collections over representative literals (seven contexts, empty/inline/multi-line forms, values and associations with repeated keys, nested to depth 2/3) are parsed on the real code and compared with the expected value tree produced by the generator; literals without an exact representation admit a stated set of outcomes. Documents shorter and longer than the token queue are parsed under every schedule of the two goroutines up to a preemption bound with race detection: the result must not depend on the schedule.",
    note="Set items are same-type literals; preemption bound 2 (1 for the 34-token document) quick, 3/2 thorough"),
  "C12": dict(engine="enum+vsched", tech=ENUM+"; every parse runs as a two-thread program (parser + scanner) under the cooperative scheduler", ref="§3/C12",
-   text="All strings of <=4 lexemes over an 18-lexeme alphabet (<=5 when starting with "["; <=5/<=6 thorough), all strings of <=3 raw characters, every prefix, single-character deletion, insertion and substitution, context swap and illegal-character injection of a 12-document corpus (incl. documents with more than 16 tokens after every position) and a nesting ladder are parsed on the real scanner+parser; outcome must be a value or a textual diagnostic whose token header matches the source at the reported line/column; a scanner thread still parked after the call is a leak by scheduler fact; non-termination by fuel.",
+   text="All strings of <=4 lexemes over an 18-lexeme alphabet (<=5 when starting with '['; <=5/<=6 thorough), all strings of <=3 raw characters, every prefix, single-character deletion, insertion and substitution, context swap and illegal-character injection of a 12-document corpus (incl. documents with more than 16 tokens after every position) and a nesting ladder are parsed on the real scanner+parser; outcome must be a value or a textual diagnostic whose token header matches the source at the reported line/column; a scanner thread still parked after the call is a leak by scheduler fact; non-termination by fuel.",
    note="the fuzzing clause is replaced by the larger deterministic enumeration; nesting ladder stops at 233 (2000 thorough) levels"),
  "C13": dict(engine="seqx", tech=SEQX, ref="§3/C13",
    text="Every reachable stack content for capacities 1..4 (7 thorough) times every operation, plus all constructors with 0..33 initial values followed by pushes past capacity and pops past empty, on the real Stack against a slice model with a capacity.",
